@@ -145,7 +145,7 @@ def eval_group_sort(env, group):
                 cases.append(('ext, sum(size) from . where is_file = true group by ext order by 2%s, 1%s into list' % (' desc' if desc else '', tail.replace(' desc', '')),
                               [(e, str(bysum[e])) for e in order][:lim or None]))
                 byname = sorted(sizes, key=lambda n: (sizes[n], n), reverse=desc)
-                cases.append(('name, size, fsize from . where is_file = true and size < 1000000 group by name, size, fsize order by fsize%s, name%s into list' % (' desc' if desc else '', tail.replace(' desc', '')),
+                cases.append(('name, size, fsize, max(size) from . where is_file = true and size < 1000000 group by name, size, fsize order by fsize%s, name%s into list' % (' desc' if desc else '', tail.replace(' desc', '')),
                               None if True else byname))
                 # a selected column that differs from the key in the letter case of a literal only
                 want = sorted(sizes, key=lambda n: n.replace('X', 'A'), reverse=desc)
@@ -154,7 +154,7 @@ def eval_group_sort(env, group):
         for q, want in cases:
             o = env.run([q], cwd=root, timeout=20.0)
             r = {'case': {'kind': 'group-sort', 'query': q}, 'layer': 'group-sort', 'nt': True, 'trans': len(sizes)}
-            ncol = 3 if ('count(*)' in q or ', fsize from' in q) else 2
+            ncol = 4 if ', fsize, max(size) from' in q else 3 if 'count(*)' in q else 2
             rows = o.rows(ncol)
             if o.timeout or o.rc != 0 or o.err or rows is None:
                 r.update(status='viol', cls='group-sort:status', detail=dict(o.brief(), query=q), sig=('err',))
